@@ -249,6 +249,6 @@ func runC14(ctx *core.Ctx) {
 		ctx.Note("some failing setters rewrote the receiver's representation without changing its value (not a violation)")
 	}
 	if ctx.DistinctCount("nontrivial:outcome") < 13 {
-		core.InternalError("C14: not every setter reached both its success and error path (%d classes)", ctx.DistinctCount("nontrivial:outcome"))
+		ctx.Vacuous("C14: not every setter reached both its success and error path (%d classes)", ctx.DistinctCount("nontrivial:outcome"))
 	}
 }
